@@ -159,9 +159,6 @@ theorem phi_two_pow (M : Poly) (n : ℕ) :
     ExtF.φ 2 M (GFpX.fromInt 2 ((2 : ℤ) ^ n)) = (AdjoinRoot.root (GFpX.toPoly 2 M)) ^ n := by
   have h1 : GFpX.fromInt 2 ((2 : ℤ) ^ n) = toList (2 ^ n) := by
     rw [← toList_fromInt]; congr 1
-    unfold BinPoly.fromInt
-    have : ((2 : ℤ) ^ n) = ((2 ^ n : ℕ) : ℤ) := by push_cast; rfl
-    rw [this, Int.natAbs_natCast]
   unfold ExtF.φ
   rw [h1]
   show AdjoinRoot.mk _ (BinPoly.binToPoly (2 ^ n)) = _
